@@ -330,6 +330,22 @@ func (x *Exec) callFunc(s *State, call *ast.CallExpr, f *types.Func, recv *Term)
 		w := x.eval(s, call.Args[0])
 		txt := x.eval(s, call.Args[1])
 		return x.writeTo(s, call, call.Args[0], w, txt)
+	case "slices.SortFunc":
+		// sorts in place: modelled as an assignment of a sorted permutation to the slice expression
+		old := x.eval(s, call.Args[0])
+		cmp := x.eval(s, call.Args[1])
+		r := x.fresh("sorted", old.Sort)
+		r.GoType = old.GoType
+		s.assume(Eq(sliceLen(r), sliceLen(old)))
+		s.assume(mk("isPerm_"+mangle(old.Sort), SBool, old, r))
+		s.assume(mk("isSortedBy_"+mangle(old.Sort), SBool, cmp, r))
+		x.assignTo(s, call.Args[0], r)
+		x.assumptions["slices.SortFunc is modelled as assigning a sorted permutation to its argument (sortedness w.r.t. cmp holds only if cmp is a strict weak order)"] = true
+		return nil
+	case "slices.IsSortedFunc":
+		v := x.eval(s, call.Args[0])
+		cmp := x.eval(s, call.Args[1])
+		return []*Term{mk("isSortedBy_"+mangle(v.Sort), SBool, cmp, v)}
 	case "errors.Is":
 		// the sentinel errors of this code base are never wrapped (checked by the census in selfcheck)
 		a := x.eval(s, call.Args[0])
@@ -469,6 +485,8 @@ func (x *Exec) callFuncValue(s *State, call *ast.CallExpr, v *types.Var) []*Term
 	name := x.fi.Name + "." + v.Name()
 	if c := x.u.Specs.Contracts[name]; c != nil {
 		args := x.evalArgs(s, call, sig)
+		x.fnValueOfCall = x.evalVar(s, v)
+		defer func() { x.fnValueOfCall = nil }()
 		return x.callByContract(s, c, name, sig, nil, args, nil, call)
 	}
 	fv := x.evalVar(s, v)
@@ -612,6 +630,9 @@ func (x *Exec) callByContractFull(s *State, c *Contract, name string, pnames []s
 	for i, n := range pnames {
 		envPre.bound[n] = withType(pvals[i], ptypes[i])
 	}
+	if x.fnValueOfCall != nil {
+		envPre.bound["$fn"] = x.fnValueOfCall
+	}
 	// preconditions
 	x.nPre[name]++
 	for i, r := range c.Requires {
@@ -640,6 +661,9 @@ func (x *Exec) callByContractFull(s *State, c *Contract, name string, pnames []s
 	envPost := &TrEnv{x: x, st: s, bound: map[string]*Term{}, lets: envPre.lets, pkg: pkg, old: envPre, macros: envPre.macros}
 	for i, n := range pnames {
 		envPost.bound[n] = withType(pvals[i], ptypes[i])
+	}
+	if x.fnValueOfCall != nil {
+		envPost.bound["$fn"] = x.fnValueOfCall
 	}
 	for i, n := range rnames {
 		r := x.fresh("r."+shortName(name)+"."+n, rsorts[i])
